@@ -241,3 +241,123 @@ func Harness_C11_RemoveRealmDoesNotHoldUpOthers() {
 	vBystanderServed(r, b)
 	vCover("remove-realm-isolation-checked")
 }
+
+// Realms that were configured through shared configuration objects - realms
+// created from one template (the template's topic history configurations are
+// the same objects for all of them), or realms added one after the other from
+// one RealmConfig value that the application adjusts in between - are
+// independent all the same.
+func Harness_C11_SharedConfigObjects() {
+	if vBool("template-with-event-history") {
+		tmpl := &RealmConfig{AnonymousAuth: true,
+			TopicEventHistoryConfigs: []*TopicEventHistoryConfig{{Topic: "hist.topic", MatchPolicy: wamp.MatchExact, Limit: 3}}}
+		r := vNewRouter(&Config{RealmTemplate: tmpl})
+		a := vAttach(r, "realm.a", nil, 64)
+		b := vAttach(r, "realm.b", nil, 64)
+		vAssert("attached", a != nil && b != nil)
+		if a == nil || b == nil {
+			return
+		}
+		a.send(&wamp.Publish{Request: 1, Topic: "hist.topic", Arguments: wamp.List{"only-in-a"}})
+		a.drain()
+		// the history subscription has the same id in both realms
+		a.send(&wamp.Call{Request: 2, Procedure: wamp.MetaProcSubLookup, Arguments: wamp.List{"hist.topic"}})
+		ra, na := vFindMsg[*wamp.Result](a.drain())
+		b.send(&wamp.Call{Request: 2, Procedure: wamp.MetaProcSubLookup, Arguments: wamp.List{"hist.topic"}})
+		rb, nb := vFindMsg[*wamp.Result](b.drain())
+		vAssert("history-subscription-known-in-both", na == 1 && nb == 1 && len(ra.Arguments) == 1 && len(rb.Arguments) == 1)
+		if na != 1 || nb != 1 || len(ra.Arguments) != 1 || len(rb.Arguments) != 1 {
+			return
+		}
+		b.send(&wamp.Call{Request: 3, Procedure: wamp.MetaProcEventHistory, Arguments: wamp.List{rb.Arguments[0]}})
+		hb, nhb := vFindMsg[*wamp.Result](b.drain())
+		vAssert("history-query-answered", nhb == 1)
+		if nhb == 1 {
+			// (the retained events are the arguments of the result)
+			vAssert("other-realms-history-not-visible", len(hb.Arguments) == 0)
+		}
+		a.send(&wamp.Call{Request: 3, Procedure: wamp.MetaProcEventHistory, Arguments: wamp.List{ra.Arguments[0]}})
+		ha, nha := vFindMsg[*wamp.Result](a.drain())
+		vAssert("own-history-kept", nha == 1)
+		if nha == 1 {
+			vAssert("own-history-has-the-publication", len(ha.Arguments) == 1)
+		}
+		r.Close()
+		vCover("template-history-checked")
+		return
+	}
+	// one RealmConfig value, adjusted between two AddRealm calls
+	flag := vChoice("flag-adjusted-between-AddRealm-calls", 3)
+	first := vBool("value-for-the-first-realm")
+	z := &vAuthz{decision: 1, armed: true}
+	cfg := RealmConfig{URI: "realm.a", AnonymousAuth: true, Authorizer: z}
+	set := func(v bool) {
+		switch flag {
+		case 0:
+			cfg.MetaStrict = v
+		case 1:
+			cfg.RequireLocalAuthz = v
+		case 2:
+			cfg.RequireLocalAuth = v
+			cfg.AnonymousAuth = false // local clients that must authenticate have no way to
+		}
+	}
+	set(first)
+	r := vNewRouter(&Config{})
+	vAssert("realm-a-added", r.AddRealm(&cfg) == nil)
+	probe := func(when string) bool {
+		// what a local session of realm a observes
+		switch flag {
+		case 0:
+			c := vAttach(r, "realm.a", wamp.Dict{"roles": vAllRoles, "private": "x"}, 16)
+			vAssert("attached-"+when, c != nil)
+			if c == nil {
+				return false
+			}
+			z.armed = false
+			c.send(&wamp.Call{Request: 1, Procedure: wamp.MetaProcSessionGet, Arguments: wamp.List{c.id}})
+			res, n := vFindMsg[*wamp.Result](c.drain())
+			z.armed = true
+			vAssert("session-get-answered-"+when, n == 1 && len(res.Arguments) == 1)
+			shown := false
+			if n == 1 && len(res.Arguments) == 1 {
+				d, _ := wamp.AsDict(res.Arguments[0])
+				_, shown = d["private"]
+			}
+			c.send(&wamp.Goodbye{Reason: wamp.CloseRealm, Details: wamp.Dict{}})
+			c.drain()
+			return !shown
+		case 1:
+			c := vAttach(r, "realm.a", nil, 16)
+			vAssert("attached-"+when, c != nil)
+			if c == nil {
+				return false
+			}
+			c.send(&wamp.Subscribe{Request: 1, Topic: "t"})
+			_, nerr := vFindMsg[*wamp.Error](c.drain())
+			z.armed = false
+			c.send(&wamp.Goodbye{Reason: wamp.CloseRealm, Details: wamp.Dict{}})
+			c.drain()
+			z.armed = true
+			return nerr == 1
+		default:
+			c := vAttach(r, "realm.a", nil, 16)
+			if c != nil {
+				z.armed = false
+				c.send(&wamp.Goodbye{Reason: wamp.CloseRealm, Details: wamp.Dict{}})
+				c.drain()
+				z.armed = true
+			}
+			return c == nil
+		}
+	}
+	before := probe("before")
+	vAssert("first-realm-follows-its-configuration", before == first)
+	cfg.URI = "realm.b"
+	set(!first)
+	vAssert("realm-b-added", r.AddRealm(&cfg) == nil)
+	after := probe("after")
+	vAssert("adding-a-realm-does-not-change-an-existing-one", after == before)
+	r.Close()
+	vCover("reused-config-checked")
+}
